@@ -421,7 +421,91 @@ func genHRR(r *Rng, i int, tier string) string {
 	if tier == "thorough" && r.Intn(4) == 0 {
 		ck = 1 + r.Intn(3000)
 	}
-	return fmt.Sprintf("id=%s g=%d mut=%s ck=%d rseed=%d", idName(id), g, mut, ck, r.U64()>>1)
+	// what happened to the UConn before the handshake (see hrrPrepare): the second ClientHello and the
+	// completion of the handshake must not depend on it
+	pre := "-"
+	if mut == "valid" {
+		pre = hrrPres[(round+i)%len(hrrPres)]
+	}
+	return fmt.Sprintf("id=%s g=%d mut=%s ck=%d pre=%s rseed=%d", idName(id), g, mut, ck, pre, r.U64()>>1)
+}
+
+var hrrPres = []string{"-", "wider", "-", "drop", "twice", "wider-all"}
+
+// specWithShares returns the id's spec with (to-be-generated) key shares added for the extra groups.
+func specWithShares(id tls.ClientHelloID, extra ...tls.CurveID) (*tls.ClientHelloSpec, error) {
+	sp, err := tls.UTLSIdToSpec(id)
+	if err != nil {
+		return nil, err
+	}
+	for _, e := range sp.Extensions {
+		if ks, ok := e.(*tls.KeyShareExtension); ok {
+			for _, g := range extra {
+				ks.KeyShares = append(ks.KeyShares, tls.KeyShare{Group: g})
+			}
+		}
+	}
+	return &sp, nil
+}
+
+// hrrPrepare brings a HelloCustom UConn into the state "the id's spec is applied and built" along
+// different histories:
+//
+//	twice      ApplyPreset(spec); ApplyPreset(spec)
+//	wider      ApplyPreset(spec + a share for g); ApplyPreset(spec)          (a key for g was generated earlier)
+//	wider-all  ApplyPreset(spec + shares for every listed EC group); ApplyPreset(spec)
+//	drop       ApplyPreset(spec + a share for g); BuildHandshakeState; remove that share from the
+//	           KeyShareExtension; BuildHandshakeState again
+func hrrPrepare(uc *tls.UConn, id tls.ClientHelloID, g tls.CurveID, pre string) error {
+	plain, err := specWithShares(id)
+	if err != nil {
+		return err
+	}
+	switch pre {
+	case "twice":
+		first, _ := specWithShares(id)
+		if err := uc.ApplyPreset(first); err != nil {
+			return err
+		}
+		return uc.ApplyPreset(plain)
+	case "wider", "wider-all":
+		extra := []tls.CurveID{g}
+		if pre == "wider-all" {
+			groups, shares, _ := specGroups(id)
+			extra = nil
+			for _, x := range groups {
+				if isECGroup(x) && !hasU16(shares, x) {
+					extra = append(extra, tls.CurveID(x))
+				}
+			}
+		}
+		first, _ := specWithShares(id, extra...)
+		if err := uc.ApplyPreset(first); err != nil {
+			return err
+		}
+		return uc.ApplyPreset(plain)
+	case "drop":
+		first, _ := specWithShares(id, g)
+		if err := uc.ApplyPreset(first); err != nil {
+			return err
+		}
+		if err := uc.BuildHandshakeState(); err != nil {
+			return err
+		}
+		for _, e := range uc.Extensions {
+			if ks, ok := e.(*tls.KeyShareExtension); ok {
+				var keep []tls.KeyShare
+				for _, sh := range ks.KeyShares {
+					if sh.Group != g {
+						keep = append(keep, sh)
+					}
+				}
+				ks.KeyShares = keep
+			}
+		}
+		return nil
+	}
+	return fmt.Errorf("unknown pre %q", pre)
 }
 
 // resolveMut turns a case-level mutation name into (applyHRRMut name, parameter) for this id.
@@ -503,24 +587,47 @@ func execHRR(in KV) string {
 	}
 	var extsDesc, pol string
 	psk := 0
-	res := runHS(HSOpts{
-		ID:        id,
-		ClientCfg: &tls.Config{OmitEmptyPsk: true, Rand: &recReader{r: NewRng(in.U64("rseed") + 1)}},
-		ServerCfg: &tls.Config{CurvePreferences: []tls.CurveID{g}},
-		Hooks:     hooks,
-		AppData:   []byte("ping"),
-		Prepare: func(uc *tls.UConn) error {
-			u = uc
-			if err := uc.BuildHandshakeState(); err != nil {
-				return err
-			}
-			extsDesc, pol = describeExts(uc)
-			if len(uc.HandshakeState.Hello.PskIdentities) > 0 {
-				psk = 1
-			}
-			return nil
-		},
-	})
+	pre := in["pre"]
+	if pre == "" {
+		pre = "-"
+	}
+	uid := id
+	if pre != "-" {
+		uid = tls.HelloCustom
+	}
+	// A handshake that should complete and does not is run again (twice at most): under heavy load a
+	// deadline can expire; a defect in the code under test fails every time.
+	var res *HSResult
+	for attempt := 0; attempt < 3; attempt++ {
+		seen = nil
+		res = runHS(HSOpts{
+			ID:        uid,
+			Timeout:   20 * time.Second,
+			ClientCfg: &tls.Config{OmitEmptyPsk: true, Rand: &recReader{r: NewRng(in.U64("rseed") + 1)}},
+			ServerCfg: &tls.Config{CurvePreferences: []tls.CurveID{g}},
+			Hooks:     hooks,
+			AppData:   []byte("ping"),
+			Prepare: func(uc *tls.UConn) error {
+				u = uc
+				if pre != "-" {
+					if err := hrrPrepare(uc, id, g, pre); err != nil {
+						return err
+					}
+				}
+				if err := uc.BuildHandshakeState(); err != nil {
+					return err
+				}
+				extsDesc, pol = describeExts(uc)
+				if len(uc.HandshakeState.Hello.PskIdentities) > 0 {
+					psk = 1
+				}
+				return nil
+			},
+		})
+		if mut != "valid" || (res.ClientErr == nil && res.ServerErr == nil && res.EchoOK) {
+			break
+		}
+	}
 	if res.PrepareErr != nil {
 		return "out=prepare-err msg=" + sanitize(res.PrepareErr.Error())
 	}
@@ -658,7 +765,7 @@ func runScripted(id tls.ClientHelloID, spec *tls.ClientHelloSpec, rseed uint64, 
 	}
 	defer cRaw.Close()
 	defer sRaw.Close()
-	dl := time.Now().Add(8 * time.Second)
+	dl := time.Now().Add(20 * time.Second)
 	cRaw.SetDeadline(dl)
 	sRaw.SetDeadline(dl)
 	sDone := make(chan struct{})
@@ -729,7 +836,7 @@ func runScripted(id tls.ClientHelloID, spec *tls.ClientHelloSpec, rseed uint64, 
 	cRaw.Close()
 	select {
 	case <-sDone:
-	case <-time.After(9 * time.Second):
+	case <-time.After(21 * time.Second):
 	}
 	sr.wire = cRec.Written()
 	return sr
@@ -924,6 +1031,9 @@ func execScript(in KV) string {
 		second = func(ch2 []byte, h *shMsg) []byte { return h.bytes() }
 	}
 	sr := runScripted(id, spec, rseed, mk, second)
+	for attempt := 0; attempt < 2 && sr.cerr != nil && errClass(sr.cerr) == "timeout"; attempt++ {
+		sr = runScripted(id, spec, rseed, mk, second) // a deadline expired under load
+	}
 	if sr.prepErr != nil {
 		return "out=prepare-err msg=" + cerrClass(sr.prepErr)
 	}
@@ -962,6 +1072,6 @@ func execScript(in KV) string {
 }
 
 func init() {
-	register(&Family{Name: "hrr", Gen: genHRR, Exec: execHRR})
-	register(&Family{Name: "hrr_script", Gen: genScript, Exec: execScript})
+	register(&Family{Name: "hrr", Gen: genHRR, Exec: execHRR, Timeout: 90 * time.Second})
+	register(&Family{Name: "hrr_script", Gen: genScript, Exec: execScript, Timeout: 90 * time.Second})
 }
